@@ -107,7 +107,7 @@ def gen_scheduler(rng: random.Random, hps: dict[str, Any]) -> dict[str, Any]:
     for name in hpmod.HP_NAMES:
         if 'c' not in hps[name] or hps[name]['c'] is None:
             continue
-        if rng.random() < 0.45:
+        if rng.random() < (0.7 if name in hpmod.INT_HPS else 0.45):
             if name in hpmod.INT_HPS:
                 vals = [rng.choice([1, 2, 1.5, 0.5, 1]) for _ in range(3)]
             elif name == 'factor_decay':
